@@ -15,7 +15,7 @@ pub fn def() -> CheckDef {
         id: "C01",
         level: "exploration",
         cases: |t| match t {
-            Tier::Quick => 20_000 + ENUM_CASES,
+            Tier::Quick => 60_000 + ENUM_CASES,
             Tier::Thorough => 1_500_000 + ENUM_CASES,
         },
         gen,
